@@ -1,7 +1,7 @@
 #!/usr/bin/env python3
 """probetest.py <dir with p*.diff> <check ids...> : apply each probe patch to /repo in turn, run the checks, revert; print a table."""
 import glob, os, subprocess, sys
-d = sys.argv[1]; ids = sys.argv[2:]
+d = os.path.abspath(sys.argv[1]); ids = sys.argv[2:]
 rows = []
 for p in sorted(glob.glob(os.path.join(d, "p*.diff"))):
     r = subprocess.run(["git", "-C", "/repo", "apply", "--check", p], stdout=subprocess.PIPE, stderr=subprocess.STDOUT, text=True)
